@@ -130,6 +130,12 @@ def parallelise[K: Hashable, Tin, Tout](
 
     """
     if cache is not None:
+        # results are stored per key: two inputs under one key would be served
+        # the same stored result
+        keys = [k for k, _ in inputs]
+        if len(set(keys)) != len(keys):
+            msg = "Caching needs unique keys, but some keys occur more than once"
+            raise ValueError(msg)
         cache.tmp_dir.mkdir(parents=True, exist_ok=True)
 
     if sys.platform in ["win32", "cygwin"]:
